@@ -22,8 +22,8 @@
 //
 
 use crate::{
-    dcos, dim2, dsin, polyhedron, triangulate2d, triangulate2d_rev, triangulate3d,
-    triangulate3d_rev, Faces, Indices, Mt4, Pt2s, Pt3, Pt3s, Scad, ScadOp,
+    dcos, dim2, dsin, polyhedron, triangulate2d, triangulate2d_rev, triangulate3d, Faces,
+    Indices, Mt4, Pt2s, Pt3, Pt3s, Scad, ScadOp,
 };
 
 /// The points and faces of a polyhedron.
@@ -127,9 +127,12 @@ impl Polyhedron {
     ///
     /// Most of the time you want the rotate_extrude macro instead of this.
     pub fn rotate_extrude(profile: &Pt2s, degrees: f64, segments: usize) -> Self {
-        assert!((0.0..360.0).contains(&degrees));
+        assert!((0.0..=360.0).contains(&degrees));
         assert!(segments >= 3);
         let not_closed = degrees != 360.0;
+        // the end caps are triangulated in the plane of the 2D profile
+        let start_cap = triangulate2d(profile);
+        let end_cap = triangulate2d_rev(profile);
         let profile: Pt3s =
             Pt3s::from_pt3s(profile.iter().map(|p| Pt3::new(p.x, 0.0, p.y)).collect());
         let profile_len = profile.len();
@@ -139,7 +142,7 @@ impl Polyhedron {
 
         if not_closed {
             // triangulate the starting face
-            let triangles = triangulate3d(&profile, Pt3::new(0.0, -1.0, 0.0));
+            let triangles = start_cap;
             for i in (0..triangles.len()).step_by(3) {
                 faces.push(Indices::from_indices(vec![
                     triangles[i] as u64,
@@ -159,7 +162,7 @@ impl Polyhedron {
                 let p2 = segment * profile_len + ((p + 1) % profile_len);
                 let p3 = segment * profile_len + p;
                 faces.push(Indices::from_indices(vec![
-                    p0 as u64, p1 as u64, p2 as u64, p3 as u64,
+                    p1 as u64, p0 as u64, p3 as u64, p2 as u64,
                 ]));
             }
         }
@@ -174,11 +177,10 @@ impl Polyhedron {
                 let p2 = segments * profile_len + ((p + 1) % profile_len);
                 let p3 = segments * profile_len + p;
                 faces.push(Indices::from_indices(vec![
-                    p0 as u64, p1 as u64, p2 as u64, p3 as u64,
+                    p1 as u64, p0 as u64, p3 as u64, p2 as u64,
                 ]));
             }
-            let nml = Pt3::new(0.0, -1.0, 0.0).rotated_z(degrees + 180.0);
-            let triangles = triangulate3d_rev(&profile, nml);
+            let triangles = end_cap;
             for i in (0..triangles.len()).step_by(3) {
                 faces.push(Indices::from_indices(vec![
                     triangles[i] as u64 + (segments * profile_len) as u64,
@@ -193,7 +195,7 @@ impl Polyhedron {
                 let p2 = (p + 1) % profile_len;
                 let p3 = p;
                 faces.push(Indices::from_indices(vec![
-                    p0 as u64, p1 as u64, p2 as u64, p3 as u64,
+                    p1 as u64, p0 as u64, p3 as u64, p2 as u64,
                 ]));
             }
         }
@@ -255,6 +257,7 @@ impl Polyhedron {
     ///
     /// If closed is true then twist_degrees should be a multiple of 360.
     pub fn sweep(profile: &Pt2s, path: &Pt3s, twist_degrees: f64, closed: bool) -> Self {
+        let profile2d = profile;
         let profile = Pt3s::from_pt3s(profile.iter().map(|p| p.as_pt3(0.0)).collect());
         let profile_len = profile.len();
         let path_len = path.len();
@@ -275,7 +278,7 @@ impl Polyhedron {
             points.push((m * p.as_pt4(1.0)).as_pt3() + path[0]);
         }
         if !closed {
-            let indices = triangulate3d_rev(&profile, path[1] - path[0]);
+            let indices = triangulate2d_rev(profile2d);
             for i in (0..indices.len()).step_by(3) {
                 faces.push(Indices::from_indices(vec![
                     indices[i],
